@@ -820,3 +820,98 @@ pub fn replay_twice(rf: &simcore::ReplayFile, path: &std::path::Path) -> i32 {
         0
     }
 }
+
+
+// ------------------------------------------------------------------------------------------------
+// Volume purity: "repeating a decode never changes a result" also after gigabytes have gone through
+// the decoder in one process. A frame kind that fetches the rest of its reader (DF19) is decoded
+// from a 1 MiB reader a few thousand times (every decode moves the whole megabyte through the
+// caching wrapper), a pool of ordinary frames is decoded before and after, from the slice and from
+// a reader, and the two sets of results must be equal. Deterministic (single thread, fixed
+// inputs); runs in a fresh child process so that whatever it leaves behind cannot touch the batch.
+
+pub fn volume_pass(mib: u32) -> Option<String> {
+    let pool = conc_pool(1);
+    let dec = |b: &[u8], via_reader: bool| -> String {
+        let r = catch_unwind(AssertUnwindSafe(|| if via_reader { Frame::from_reader(io::Cursor::new(b)) } else { Frame::from_bytes(b) }));
+        match r {
+            Ok(r) => render(&r),
+            Err(_) => {
+                let (loc, msg) = take_panic().unwrap_or_default();
+                format!("Panic {} {}", short_loc(&loc), msg)
+            }
+        }
+    };
+    let before: Vec<(String, String)> = pool.iter().map(|f| (dec(f, false), dec(f, true))).collect();
+    // DF19 with a military application field: the decoder takes everything that follows
+    let mut big = vec![0x9bu8, 0x06, 0x4f, 0x1c, 0x22, 0x77, 0x10];
+    big.resize(1 << 20, 0x5a);
+    let first = dec(&big, true);
+    for i in 0..mib {
+        let again = dec(&big, i % 2 == 0);
+        if again != first {
+            return Some(format!("the same 1 MiB buffer (a DF19 frame and what follows it) decodes differently the {}th time, after {} MiB have gone through the decoder in this process:\nfirst: {}\nnow  : {}", i + 2, i + 1, &first[..first.len().min(160)], &again[..again.len().min(160)]));
+        }
+    }
+    for (f, (a, b)) in pool.iter().zip(&before) {
+        let (a2, b2) = (dec(f, false), dec(f, true));
+        if a2 != *a || b2 != *b {
+            return Some(format!("bytes {} decoded to\n  {a}\nbefore {mib} MiB went through the decoder in this process, and to\n  {}\nafterwards", wire::hex(f), if a2 != *a { a2 } else { b2 }));
+        }
+    }
+    None
+}
+
+/// `adsb-sim replay` of a volume finding, and the way the check itself runs the pass: in a process
+/// of its own
+pub fn replay_volume(rf: &simcore::ReplayFile, path: &std::path::Path) -> i32 {
+    let mib = rf.scenario["mib"].as_u64().unwrap_or(4200) as u32;
+    println!("trace_hash=");
+    match volume_pass(mib) {
+        Some(detail) => {
+            println!("replayed signature={}", rf.signature);
+            for l in detail.lines() {
+                println!("  | {l}");
+            }
+            if std::env::var("VERIF_REPLAY_QUIET").is_err() {
+                let known = simcore::KnownFindings::load(&simcore::verif_dir());
+                if let Some(k) = known.matches(&rf.property, &rf.signature, &detail) {
+                    println!("KNOWN-FINDING: property={} {}", rf.property, k.what);
+                    return 0;
+                }
+            }
+            println!("VIOLATION property={} replay={}", rf.property, path.display());
+            1
+        }
+        None => {
+            println!("replay of {}: results before and after {mib} MiB are equal", path.display());
+            0
+        }
+    }
+}
+
+/// runs the volume pass in a child process; Some(violation) if results changed
+pub fn volume_purity(tier: &str) -> (Option<simcore::PreFound>, serde_json::Value) {
+    let mib: u32 = std::env::var("VERIF_VOLUME_MIB").ok().and_then(|s| s.parse().ok()).unwrap_or(if tier == "thorough" { 8_400 } else { 4_200 });
+    let sig = "C19:result-changes-after-gigabytes-of-decoding";
+    let dir = std::env::var("VERIF_OUT_DIR").map(std::path::PathBuf::from).unwrap_or_else(|_| simcore::verif_dir()).join("work");
+    let _ = std::fs::create_dir_all(&dir);
+    let path = dir.join("C19-volume.probe.json");
+    let rf = json!({"property": "C19", "engine": "Rv", "seed": 0, "run": 0, "signature": sig, "detail": "", "trace_hash": "", "scenario": {"mib": mib}});
+    std::fs::write(&path, rf.to_string()).unwrap_or_else(|e| simcore::harness_error(&format!("cannot write {}: {e}", path.display())));
+    let exe = std::env::current_exe().unwrap_or_else(|e| simcore::harness_error(&format!("current_exe: {e}")));
+    let t0 = std::time::Instant::now();
+    let out = std::process::Command::new(exe).arg("replay").arg(&path).env("VERIF_REPLAY_QUIET", "1").output().unwrap_or_else(|e| simcore::harness_error(&format!("cannot spawn the volume pass: {e}")));
+    let so = String::from_utf8_lossy(&out.stdout).to_string();
+    let _ = std::fs::remove_file(&path);
+    let cov = json!({"what": "a DF19 frame decoded from a 1 MiB reader again and again in one fresh process, a pool of frames decoded before and after; results must be equal", "mib_through_the_decoder": mib, "wall_s": t0.elapsed().as_secs_f64(), "changed": out.status.code() == Some(1)});
+    println!("volume purity: {mib} MiB through the decoder of one process in {:.1}s, {}", t0.elapsed().as_secs_f64(), if out.status.code() == Some(1) { "RESULTS CHANGED" } else { "results unchanged" });
+    match out.status.code() {
+        Some(0) => (None, cov),
+        Some(1) => {
+            let detail: String = so.lines().filter_map(|l| l.strip_prefix("  | ")).collect::<Vec<_>>().join("\n");
+            (Some(simcore::PreFound { engine: "Rv".into(), signature: sig.into(), detail, scenario: json!({"mib": mib}) }), cov)
+        }
+        other => simcore::harness_error(&format!("the volume pass ended with {other:?}:\n{so}")),
+    }
+}
